@@ -54,14 +54,15 @@ type Trace struct {
 }
 
 type env struct {
-	tr     *track.Tracker // optional: pool ownership tracking (C12)
-	held   []*pool.Message
-	heldMu sync.Mutex
-	u      *conns.UDP
-	seen   int
-	mid    int32
-	n      int
-	obs    []interface {
+	immediate bool           // the application releases a response the moment it gets it
+	tr        *track.Tracker // optional: pool ownership tracking (C12)
+	held      []*pool.Message
+	heldMu    sync.Mutex
+	u         *conns.UDP
+	seen      int
+	mid       int32
+	n         int
+	obs       []interface {
 		Cancel(ctx context.Context, opts ...message.Option) error
 	}
 	reqs  []memnet.Dgram
@@ -127,7 +128,12 @@ func (e *env) async(f func() (*pool.Message, error)) *call {
 		c.err = err
 		if err == nil && resp != nil {
 			c.code = int(resp.Code())
-			if e.tr != nil { // the application now holds the response until it releases it (end of the scenario)
+			if e.immediate {
+				if e.tr != nil {
+					e.tr.AppRelease(resp)
+				}
+				e.u.CC.ReleaseMessage(resp)
+			} else if e.tr != nil { // the application now holds the response until it releases it (end of the scenario)
 				e.tr.Hold(resp)
 				e.heldMu.Lock()
 				e.held = append(e.held, resp)
@@ -191,6 +197,16 @@ func (e *env) run(kind string) (bool, string) {
 			return false, "norequest"
 		}
 		e.inject(message.Acknowledgement, codes.Content, q.MID, q.Token, nil, []byte("ok"))
+		return c.wait(), outcome(c)
+	case "plainSepCon": // empty ACK, then the response as a separate confirmable message (which the connection must acknowledge)
+		c := get()
+		q, ok := e.waitOut(pathIs(p))
+		if !ok {
+			return false, "norequest"
+		}
+		e.inject(message.Acknowledgement, codes.Empty, q.MID, nil, nil, nil)
+		e.mid++
+		e.inject(message.Confirmable, codes.Content, e.mid, q.Token, nil, []byte("sep"))
 		return c.wait(), outcome(c)
 	case "plainCancel":
 		c := get()
@@ -373,6 +389,28 @@ func (e *env) run(kind string) (bool, string) {
 			return true, "err"
 		}
 		return true, "ok"
+	case "srvReqHijack":
+		// the peer's confirmable request is taken over (Hijack) and released by the application inside the handler; the
+		// library must still answer it exactly as a confirmable request: piggybacked on the ACK with the request's MID
+		tok := []byte{0x5f, byte(e.n)}
+		mid := e.nextMID()
+		from := e.u.Sess.OutLen()
+		e.inject(message.Confirmable, codes.GET, mid, tok, message.Options{{ID: message.URIPath, Value: []byte("hijack")}}, nil)
+		ok := hooks.WaitFor(conns.WD, func() bool { return e.u.Sess.OutLen() > from })
+		good := false
+		for _, raw := range e.u.Sess.Out(from) {
+			if d, err := memnet.Parse(raw); err == nil && d.Type == message.Acknowledgement && d.MID == mid && d.Code == int(codes.Content) && bytes.Equal(d.Token, tok) {
+				good = true
+			}
+		}
+		e.scan()
+		for i := range e.reqs {
+			e.taken[i] = true
+		}
+		if ok && !good {
+			return false, "wrongreply"
+		}
+		return ok, "served"
 	case "srvReq", "srvReqNon", "srvReqNoResp", "srvBwUpAbandon", "srvBwDownAbandon":
 		tok := []byte{0x5e, byte(e.n)}
 		mid := e.nextMID()
@@ -414,8 +452,13 @@ func runOne(t int, kinds []string) Trace { return RunHistory(t, kinds, 64, nil) 
 // RunHistory runs one history; poolSize is the connection's message-pool size (0: released messages are never
 // handed out again), trk an optional ownership tracker.
 func RunHistory(t int, kinds []string, poolSize uint32, trk *track.Tracker) Trace {
+	return RunHistoryOpt(t, kinds, poolSize, trk, false)
+}
+
+// RunHistoryOpt: immediate = the application releases every response the moment the call returns it
+func RunHistoryOpt(t int, kinds []string, poolSize uint32, trk *track.Tracker, immediate bool) Trace {
 	tr := Trace{T: t, Ev: []Ev{}}
-	e := &env{mid: 20000, taken: map[int]bool{}, tr: trk}
+	e := &env{mid: 20000, taken: map[int]bool{}, tr: trk, immediate: immediate}
 	e.u = conns.NewUDP(func(cfg *udpclient.Config) {
 		cfg.MessagePool = pool.New(poolSize, 2048)
 		cfg.BlockwiseEnable = true
@@ -433,6 +476,13 @@ func RunHistory(t int, kinds []string, poolSize uint32, trk *track.Tracker) Trac
 			}
 			p, _ := r.Path()
 			switch p {
+			case "/hijack": // the application takes the request over and gives it back to the pool at once
+				r.Hijack()
+				if trk != nil {
+					trk.AppRelease(r)
+				}
+				w.Conn().ReleaseMessage(r)
+				_ = w.SetResponse(codes.Content, message.TextPlain, bytes.NewReader([]byte("h")))
 			case "/small":
 				_ = w.SetResponse(codes.Content, message.TextPlain, bytes.NewReader([]byte("s")))
 			case "/big":
